@@ -69,6 +69,39 @@ func linTypes() []linType {
 	return types
 }
 
+// lockPatterns: observed lock-event pattern ("L"/"U" write lock, "l"/"u" read lock) per call of a method, for
+// cross-checking the section table the translator extracted from the source ("<type> <Method>" -> patterns).
+var lockPatterns = map[string]map[string]bool{}
+
+var methodOf = map[string][2]string{
+	"queue": {"queue.Queue", ""}, "lqueue": {"queue.LQueue", ""}, "stack": {"stack.Stack", ""}, "lstack": {"stack.LStack", ""},
+	"heap": {"heap.Heap", ""}, "bst": {"bstree.BsTree", ""}, "trie": {"trie.Trie", ""}, "cache": {"cache.Cache", ""},
+}
+
+var opMethod = map[string]string{"enqueue": "Enqueue", "dequeue": "Dequeue", "peek": "Peek", "size": "Size", "search": "Search",
+	"clear": "Clear", "push": "Push", "pop": "Pop", "delete": "Delete", "upsert": "Upsert", "get": "Get", "put": "Put",
+	"contains": "Contains", "set": "Set", "update": "Update", "count": "Count", "delexp": "DeleteExpired"}
+
+func noteLocks(kind, op, pattern string) {
+	m, ok := opMethod[op]
+	t, ok2 := methodOf[kind]
+	if !ok || !ok2 {
+		return
+	}
+	if kind == "heap" && op == "delete" {
+		// the harness's `delete` reads GetValues() first (to report the victim's slot): not part of Heap.Delete
+		pattern = strings.TrimPrefix(pattern, "lu")
+	}
+	k := t[0] + " " + m
+	if lockPatterns[k] == nil {
+		lockPatterns[k] = map[string]bool{}
+	}
+	if pattern == "" {
+		pattern = "-"
+	}
+	lockPatterns[k][pattern] = true
+}
+
 type callRec struct {
 	tid      int
 	inv, ret int
@@ -143,8 +176,12 @@ func main() {
 										vs.Yield() // the next call's start is a scheduling point
 									}
 									inv := vs.S.Clock
+									before := len(vs.CurEvents())
 									res := guard(func() string { return runner.Do(strings.Fields(op)) })
 									recs = append(recs, callRec{tid: ti, inv: inv, ret: vs.S.Clock, op: op, res: res})
+									if ev := vs.CurEvents(); len(ev) >= before {
+										noteLocks(lt.kind, strings.Fields(op)[0], ev[before:])
+									}
 								}
 							}
 						}
@@ -209,5 +246,10 @@ func main() {
 		}
 	}
 	out.Flush()
+	for k, pats := range lockPatterns {
+		for p := range pats {
+			fmt.Fprintf(os.Stderr, "LOCKS %s %s\n", k, p)
+		}
+	}
 	fmt.Fprintf(os.Stderr, "VSYNC programs=%d executions=%d histories=%d\n", totalProg, totalExec, totalHist)
 }
